@@ -6,9 +6,13 @@ N=$1; shift
 cd /repo || exit 2
 [ -z "$(git status --porcelain)" ] || { echo "SKIP $N: /repo dirty"; exit 1; }
 git apply --check "/tmp/fixes/$N.diff" 2>/tmp/fixes/$N.err || { echo "SKIP $N: does not apply: $(head -2 /tmp/fixes/$N.err)"; exit 1; }
+before=$(python3 /verif/tools/audit_fixes.py | grep -c MISSING)
 git apply "/tmp/fixes/$N.diff"
 if ! go build ./... 2>/tmp/fixes/$N.err; then echo "SKIP $N: build fails"; head -5 /tmp/fixes/$N.err; git checkout -- .; exit 1; fi
 [ -z "$(gofmt -l $(git diff --name-only))" ] || { echo "note $N: gofmt differences"; gofmt -w $(git diff --name-only); }
+# guard against stale patches that silently revert earlier fixes: lines added by earlier fix commits must survive
+after=$(python3 /verif/tools/audit_fixes.py | grep -c MISSING)
+if [ "$after" -gt "$before" ]; then echo "SKIP $N: patch removes lines added by earlier fix commits ($before -> $after)"; python3 /verif/tools/audit_fixes.py | tail -6; git checkout -- .; exit 1; fi
 if [ $# -gt 0 ]; then
   if ! go test -vet=off -count=1 "$@" >/tmp/fixes/$N.testlog 2>&1; then echo "SKIP $N: tests fail"; grep -E "^(--- FAIL|FAIL|panic)" /tmp/fixes/$N.testlog | head; git checkout -- .; exit 1; fi
 fi
